@@ -146,6 +146,17 @@ class Discharger:
             return "constant index into a display"
         if isinstance(base, ast.Constant) and isinstance(base.value, str) and k is not None and -len(base.value) <= k < len(base.value):
             return "constant index into a string literal"
+        # x = next(it, SENTINEL) under a dominating `x is not SENTINEL`: the default is excluded, x is an element of it
+        if isinstance(base, ast.Name) and any(a[0] == "any" for a in t):
+            for fc in facts:
+                if fc[0] == "cmp" and (fc[1].startswith("not (%s is " % bt) and fc[1].endswith(")") or fc[1].startswith("%s is not " % bt)):
+                    sn = fc[1][len("not (%s is " % bt):-1] if fc[1].startswith("not (") else fc[1][len("%s is not " % bt):]
+                    d_ = self.dominating_def(info, bt, n)
+                    from .db import is_private_sentinel
+                    if sn.isidentifier() and isinstance(d_, ast.Call) and u(d_.func) == "next" and len(d_.args) == 2 and u(d_.args[1]) == sn \
+                            and sn not in info.f.locals and is_private_sentinel(self.ctx.db, info.f.module.name, sn):
+                        t = frozenset(a for a in t if a[0] != "any")
+                        kinds = {a[0] for a in t}
         # tuples of known arity
         if k is not None:
             ar = tuple_arities(t, ("notnone", bt) in facts)
@@ -510,6 +521,18 @@ class Discharger:
         n = s.node
         f = info.f
         # else-branch of an isinstance chain over a parameter whose inferred types are covered
+        # `if not isinstance(p, (A, B)): raise ...` over a parameter whose inferred types are all covered
+        par = info.pm.get(id(n))
+        if isinstance(par, ast.If) and any(x is n for x in par.body) and isinstance(par.test, ast.UnaryOp) and isinstance(par.test.op, ast.Not):
+            t = par.test.operand
+            if isinstance(t, ast.Call) and u(t.func) == "isinstance" and len(t.args) == 2 and isinstance(t.args[0], ast.Name) \
+                    and t.args[0].id in f.params and not any(
+                        isinstance(x, ast.Name) and x.id == t.args[0].id and isinstance(x.ctx, ast.Store) for x in own_nodes(f.node)):
+                ts = t.args[1].elts if isinstance(t.args[1], ast.Tuple) else [t.args[1]]
+                covered = {u(x) for x in ts}
+                kinds = {a[0] for a in self.ctx.ty.param.get((f.qual, t.args[0].id), frozenset())}
+                if kinds and kinds <= covered:
+                    return "dead branch: parameter %s is always %s" % (t.args[0].id, sorted(kinds))
         chain = self._if_chain_of(info, n)
         if not chain:
             chain = self._early_return_chain(info, n)
